@@ -80,6 +80,24 @@ theorem decodeBuffer_encode (max : Int) (f : Frame) (rest : List UInt8)
     decodeBuffer max (encodeCodec f ++ rest) = .frame f rest := by
   exact decodeBuffer_encode' max f rest hok hmax
 
+/-- the encoding is injective and prefix-free: if the bytes of one frame followed by anything equal the bytes of another
+frame followed by anything, the frames and the remainders are the same — no frame's encoding is a proper prefix of
+another's, so a byte stream has at most one reading -/
+theorem encoding_is_prefix_free (f g : Frame) (r₁ r₂ : List UInt8) (hf : FrameOk f) (hg : FrameOk g)
+    (h : encodeCodec f ++ r₁ = encodeCodec g ++ r₂) : f = g ∧ r₁ = r₂ := by
+  have h1 := decodeBuffer_encode (-1) f r₁ hf (Or.inl (by decide))
+  have h2 := decodeBuffer_encode (-1) g r₂ hg (Or.inl (by decide))
+  rw [h, h2] at h1
+  injection h1 with h3 h4
+  exact ⟨h3.symm, h4.symm⟩
+
+/-- wire size of a frame: payload plus 2 bytes of header up to 255 bytes, plus 9 above -/
+theorem encoded_length (f : Frame) :
+    (encodeCodec f).length = f.payload.length + (if f.payload.length ≤ 255 then 2 else 9) := by
+  by_cases h : f.payload.length ≤ 255
+  · rw [header_shape_short f h, if_pos h]; simp
+  · rw [header_shape_long f (by omega), if_neg h]; simp [be64_length]; omega
+
 theorem decodeSlice_encode (max : Int) (f : Frame) (rest : List UInt8)
     (hok : f.payload.length + 9 < two64) (hmax : Admits max f) :
     decodeSlice max (encodeCodec f ++ rest) = .frame f rest := by
